@@ -95,6 +95,22 @@ def handle (op : String) (args : List String) : Option String := do
         let d ← v3Of ((fs.drop 11).take 3); let v ← v3Of (fs.drop 14)
         pure (fsHex (v3To (((trs.New p r sc).Translate d).Transform v)))
   -- oracles for Props/C17More.lean ------------------------------------------------------
+  | "c17.holds.trs_ctor" => do         -- kind params… v out : out = R(S∘v)+T written out from the property text (identity / one / zero for the parts a constructor leaves out; kind 3: T+d)
+      let kind := fs.getD 0 0
+      let idq : Qt := ⟨⟨0, 0, 0⟩, 1⟩
+      let one : V3 Float := ⟨1, 1, 1⟩
+      let zero : V3 Float := ⟨0, 0, 0⟩
+      let parts : Option (V3 Float × Qt × V3 Float × V3 Float × List Float) :=
+        if kind == 0 then do let p ← v3Of ((fs.drop 1).take 3); let v ← v3Of ((fs.drop 4).take 3); pure (p, idq, one, v, fs.drop 7)
+        else if kind == 1 then do let sc ← v3Of ((fs.drop 1).take 3); let v ← v3Of ((fs.drop 4).take 3); pure (zero, idq, sc, v, fs.drop 7)
+        else if kind == 2 then do let q ← qOf ((fs.drop 1).take 4); let v ← v3Of ((fs.drop 5).take 3); pure (zero, q, one, v, fs.drop 8)
+        else do
+          let p ← v3Of ((fs.drop 1).take 3); let r ← qOf ((fs.drop 4).take 4); let sc ← v3Of ((fs.drop 8).take 3)
+          let d ← v3Of ((fs.drop 11).take 3); let v ← v3Of ((fs.drop 14).take 3)
+          pure (p.Add d, r, sc, v, fs.drop 17)
+      let (t, r, sc, v, out) ← parts
+      let want := (r.Rotate (sc.MultByVector v)).Add t
+      pure (boolStr (allClose (tol * (1 + want.Length)) (v3To want) out))
   | "c17.holds.mulpos" => do           -- a p out(=a.MulPosition p): rows 0..2 of a times (p,1), written out independently of the generated code
       let m := fs.take 16; let p ← v3Of ((fs.drop 16).take 3); let o ← v3Of (fs.drop 19)
       let e := fun (i : Nat) => m.getD i 0
